@@ -471,6 +471,10 @@ func (h *hist) attemptHTTPMedia(entry string) {
 		}
 		return
 	case "hls-segment":
+		if sc := rapid.SampledFrom([]string{"", "", "", ".TS", ".Ts", ".tS"}).Draw(h.t, "suffixCase"); sc != "" {
+			h.attemptSegmentSuffixCase(u, kind, sc)
+			return
+		}
 		a.Shape = "listed-uri"
 		o, _ = h.sh.hlsSegmentNow(path, rapid.IntRange(0, 2).Draw(h.t, "segmentAge"), cred)
 		if strings.HasPrefix(o.Note, "machinery") {
@@ -479,6 +483,66 @@ func (h *hist) attemptHTTPMedia(entry string) {
 	}
 	h.record(a)
 	h.judgeMedia(a, o, u, valid, allow, path)
+}
+
+// attemptSegmentSuffixCase asks for a listed segment with its ".ts" suffix in another
+// case. Nothing documents that spelling, so only one direction is asserted: whatever
+// the server makes of it, transport-stream bytes of a stream reach only a caller whose
+// saved pull right covers that stream. Most of the time the caller is one whose right
+// covers "{stream}/{seq}" but not the stream (the look-alike the segment URL invites).
+// After seeded change C11-R6A (the handler folds the suffix's case, the rights check
+// in front of it does not).
+func (h *hist) attemptSegmentSuffixCase(u int, credKind, suffix string) {
+	path := h.pickPath(u, "pull", h.sh.live, "path")
+	type cand struct {
+		u int
+		p string
+	}
+	var cands []cand
+	for x := 0; x < nUsers; x++ {
+		for _, p := range h.sh.live {
+			if !strings.HasSuffix(p, "/") && h.m.allow(x, "pull", p+"/7") && !h.m.allow(x, "pull", p) {
+				cands = append(cands, cand{x, p})
+			}
+		}
+	}
+	aimed := false
+	if len(cands) > 0 && rapid.IntRange(0, 9).Draw(h.t, "aimAtChildRight") < 8 {
+		c := rapid.SampledFrom(cands).Draw(h.t, "childRight")
+		u, path, aimed = c.u, c.p, true
+		credKind = "good"
+	}
+	if strings.HasSuffix(path, "/") {
+		return
+	}
+	cred, kind, valid := h.httpCredFor(credKind, u)
+	allow := valid && h.m.allow(u, "pull", path)
+	a := &attempt{Entry: "hls-segment", Shape: "suffix-case" + suffix, Cred: kind, User: u, User2: u, Path: path, Expect: expectWord(allow)}
+	h.ntFlip(a, u, "pull", path)
+	uris := h.sh.segmentURIs(path)
+	if len(uris) == 0 {
+		h.machinery("no HLS segments on %s", path)
+		return
+	}
+	uri := uris[len(uris)-1]
+	if i := strings.IndexByte(uri, '?'); i >= 0 {
+		uri = uri[:i]
+	}
+	uri = strings.TrimSuffix(uri, ".ts") + suffix
+	o := h.sh.hlsSegment(uri, cred)
+	h.note(map[string]any{"op": "access", "attempt": a, "uri": uri, "observed": o})
+	h.record(a)
+	evid.Class("entry:hls-segment-suffix-case" + suffix)
+	if aimed {
+		evid.Class("suffix-case:right-covers-{stream}/{seq}-only")
+	}
+	if o.Served && !allow {
+		mk := ""
+		if len(o.Markers) > 0 {
+			mk = fmt.Sprint(o.Markers)
+		}
+		h.fail("over-grant-media", "hls-segment [suffix-case %s]: GET %s delivered transport-stream bytes (markers %s) of %s to %s (credential %s) whose saved pull right %q does not cover that stream", suffix, uri, mk, path, h.names[u], kind, h.m.users[u].Pull)
+	}
 }
 
 // ---- RTSP over TCP
